@@ -1,7 +1,7 @@
 (* C12  Divisor arithmetic is the free abelian group on the vertices. *)
 From Coq Require Import ZArith List Bool Lia.
 Import ListNotations.
-From CF Require Import ZSum ListAux Defs Core Machines GraphLink QredLink.
+From CF Require Import ZSum ListAux Defs Core Machines GraphLink QredLink PyDict ImpRep TranslatedImpCFDivisor ImpLinkArith.
 Open Scope Z_scope.
 
 Lemma nth_dadd n D E v : (v < n)%nat -> nthZ (dadd n D E) v = nthZ D v + nthZ E v.
@@ -54,3 +54,38 @@ Proof. intros. unfold d_eqb, graph_eqb. rewrite !andb_true_iff, Nat.eqb_eq, div_
   - intros [[Hn H] HD]. repeat split; auto. intros v w Hv Hw. specialize (H v (proj2 (in_Vg g1 v) Hv)). rewrite forallb_forall in H. apply Z.eqb_eq. apply H. now apply in_Vg.
   - intros [[Hn H] HD]. repeat split; auto. intros v Hv. apply forallb_forall. intros w Hw. apply Z.eqb_eq. apply H; now apply in_Vg. Qed.
 Print Assumptions C12_eq_spec.
+
+(* ---- the constructor and the operators built on it, translated from /repo's CURRENT source by tools/translate_imp.py (TranslatedImpCFDivisor.v) ---- *)
+(* CFDivisor(graph, pairs): accepted exactly when no name is listed twice and every listed name is a vertex; the new object's dictionary then holds the listed chips and
+   0 elsewhere, and its total_degree is the sum of the listed chips - in whatever order Python iterates over the vertex set (so) *)
+Theorem C12_source_constructor : forall g gg vs so L, rep_graph gg g -> rep_vset (nv g) vs -> NoDup vs -> (forall l, Permutation.Permutation (so l) l) ->
+  match CFDivisor___init__ so vs gg L with
+  | PyOk (dd, t) => ctor_ok g L = true /\ rep_div (nv g) dd (tab (nv g) (fun v => d_get v 0 L)) /\ t = zsum snd L
+  | PyExn _ => ctor_ok g L = false end.
+Proof. intros g gg vs so L Hg Hvs Hnd Hso. apply ctor_refines; assumption. Qed.
+Print Assumptions C12_source_constructor.
+(* -D and k*D on dictionaries representing D: never refused, a NEW dictionary representing dneg / dscale (vertex-wise, C12_vertexwise), total_degree = -deg D / k*deg D *)
+Theorem C12_source_neg_rmul : forall g gg vs so dd D k, rep_graph gg g -> rep_vset (nv g) vs -> NoDup vs -> (forall l, Permutation.Permutation (so l) l) -> rep_div (nv g) dd D ->
+  (exists dd', CFDivisor___neg__ dd vs gg so = PyOk (dd', - zsum (nthZ D) (seq 0 (nv g))) /\ rep_div (nv g) dd' (dneg (nv g) D)) /\
+  (exists dd', CFDivisor___rmul__ dd vs gg so k = PyOk (dd', k * zsum (nthZ D) (seq 0 (nv g))) /\ rep_div (nv g) dd' (dscale (nv g) k D)).
+Proof. intros g gg vs so dd D k Hg Hvs Hnd Hso HR. split; [apply neg_refines; assumption|apply rmul_refines; assumption]. Qed.
+Print Assumptions C12_source_neg_rmul.
+(* D + E and D - E on dictionaries representing D (on g) and E (on a graph with n2 vertices): refused exactly when the vertex sets differ (Machines.d_add / d_sub: n <> n2),
+   otherwise a NEW dictionary representing dadd / dsub and total_degree = deg D +/- deg E *)
+Theorem C12_source_add_sub : forall g gg vs so dd D n2 vs2 dd2 E, rep_graph gg g -> rep_vset (nv g) vs -> NoDup vs -> (forall l, Permutation.Permutation (so l) l) ->
+  rep_div (nv g) dd D -> rep_vset n2 vs2 -> rep_div n2 dd2 E ->
+  (if Nat.eqb (nv g) n2 then exists dd', CFDivisor___add__ vs dd gg so vs2 dd2 = PyOk (dd', zsum (nthZ D) (seq 0 (nv g)) + zsum (nthZ E) (seq 0 (nv g))) /\ rep_div (nv g) dd' (dadd (nv g) D E)
+   else CFDivisor___add__ vs dd gg so vs2 dd2 = PyExn tt) /\
+  (if Nat.eqb (nv g) n2 then exists dd', CFDivisor___sub__ vs dd gg so vs2 dd2 = PyOk (dd', zsum (nthZ D) (seq 0 (nv g)) - zsum (nthZ E) (seq 0 (nv g))) /\ rep_div (nv g) dd' (dsub (nv g) D E)
+   else CFDivisor___sub__ vs dd gg so vs2 dd2 = PyExn tt) /\
+  d_add (nv g) n2 D E = (if Nat.eqb (nv g) n2 then Ok (dadd (nv g) D E) else Err).
+Proof. intros g gg vs so dd D n2 vs2 dd2 E Hg Hvs Hnd Hso HR H2 HR2. split; [apply add_refines; assumption|]. split; [apply sub_refines; assumption|reflexivity]. Qed.
+Print Assumptions C12_source_add_sub.
+Example C12_source_nonvacuous : let g := [[0;2;1];[2;0;1];[1;1;0]] in
+  CFDivisor___init__ (fun l => rev l) [0;1;2]%nat (dict_of_graph g) [(2%nat, 5); (0%nat, -1)] = PyOk ([(2%nat, 5); (1%nat, 0); (0%nat, -1)], 4) /\
+  CFDivisor___init__ (fun l => l) [0;1;2]%nat (dict_of_graph g) [(2%nat, 5); (2%nat, 1)] = PyExn ([(0%nat, 0); (1%nat, 0); (2%nat, 0)], 0) /\
+  CFDivisor___init__ (fun l => l) [0;1;2]%nat (dict_of_graph g) [(2%nat, 5); (3%nat, 1)] = PyExn ([(0%nat, 0); (1%nat, 0); (2%nat, 5)], 5) /\
+  CFDivisor___rmul__ (dict_of_div [3; 0; -2]) [0;1;2]%nat (dict_of_graph g) (fun l => l) (-2) = PyOk ([(0%nat, -6); (1%nat, 0); (2%nat, 4)], -2) /\
+  CFDivisor___add__ [0;1;2]%nat (dict_of_div [3; 0; -2]) (dict_of_graph g) (fun l => rev l) [2;0;1]%nat (dict_of_div [1; 1; 1]) = PyOk ([(2%nat, -1); (1%nat, 1); (0%nat, 4)], 4) /\
+  CFDivisor___sub__ [0;1;2]%nat (dict_of_div [3; 0; -2]) (dict_of_graph g) (fun l => l) [0;1]%nat (dict_of_div [1; 1]) = PyExn tt.
+Proof. vm_compute. repeat split. Qed.
